@@ -236,6 +236,21 @@ def run(ctx):
     wres, wdis, wstats = corr_core.run_core(ws_cases, shards=4, spec=True)
     report_core_disagreements(ctx, ws_cases, wdis, in_scope=lambda c, d: True, known=known_core)
     ev += wstats.get("e2e_agree", 0)
+    # what a regex literal finds does not depend on what was compiled before it: in ONE process, a literal that is rejected half-way (groups already opened and numbered)
+    # and then literals whose groups and numbered back-references must be numbered from 1 again
+    bad = ["(x(y)z", "(a)(b", "((a)|(b)", "(a)(?=b)", "(a){2", "(a)[b", "((((a", "(a)\\"]
+    good = ["c(\\d+)", "(a|b)\\1", "(a)(b)\\2", "(a)(b)?\\1", "((a)b)\\2\\1", "(?<n>a)(b)\\1", "(?:a)(b)\\1"]
+    hist_cases = []
+    for k, g_ in enumerate(good):
+        for b_ in (bad[k % len(bad)], bad[(k + 3) % len(bad)]):
+            hist_cases.append({"src": "find all @/%s/" % b_, "texts": ["a"]})
+            hist_cases.append({"src": "find all @/%s/" % g_, "texts": ["c12 c3", "aabbab", "aba abb", "abab", "aa", "abaab", "abb"]})
+    hres, hdis, hstats = corr_core.run_core(hist_cases, shards=1, spec=True)
+    report_core_disagreements(ctx, hist_cases, hdis, in_scope=lambda c, d: True, known=known_core)
+    for c, g in zip(hist_cases[1::2], hres[1::2]):
+        if "matches_list" not in g and "panic" not in g:
+            ctx.violation("a regex literal of the supported subset is rejected when compiled after a rejected one: %s" % str(g.get("err", "?")).split("\n")[0], {"regex_source": c["src"]})
+    ev += hstats.get("e2e_agree", 0)
     srcs = [c["src"] for c in cases]
     for i in range(0, len(srcs), 4000):
         front.compare_front(ctx, srcs[i:i + 4000], ["regex literal"] * len(srcs[i:i + 4000]), impl_prop=False)
